@@ -143,6 +143,30 @@ pub fn family_programs() -> Vec<Program> {
     out
 }
 
+/// First use: the filesystem has never been called before the threads start (whatever an instance
+/// sets up lazily is set up under contention). All (1 call || 2 calls) programs over 8 calls.
+pub fn first_use_programs() -> Vec<Program> {
+    let alphabet: Vec<Op> = vec![
+        Op::CreateDir("/a".to_string()),
+        Op::CreateDir("/b".to_string()),
+        Op::CreateFile("/f".to_string(), Arc::new(b"N".to_vec())),
+        Op::Exists(String::new()),
+        Op::ReadDir(String::new()),
+        Op::Metadata(String::new()),
+        Op::Exists("/a".to_string()),
+        Op::CreateDir("/a/m".to_string()),
+    ];
+    let mut out = vec![];
+    for a in &alphabet {
+        for b1 in &alphabet {
+            for b2 in &alphabet {
+                out.push(Program { init: vec![], threads: vec![vec![a.clone()], vec![b1.clone(), b2.clone()]], big: false, many: false });
+            }
+        }
+    }
+    out
+}
+
 /// result abstraction: Ok(value) or Err
 #[derive(Clone, Debug, PartialEq, Eq, PartialOrd, Ord)]
 pub enum Res {
@@ -412,7 +436,7 @@ pub fn replay(v: &Value) -> CaseResult {
     }
 }
 
-const RULE: &str = "programs of 2..3 threads x 1..3 calls from {create_dir, write session (create_file+write_all+drop), append session, remove_file, remove_dir, exists, metadata, read_dir, read session} over a universe of 4 directory paths, 4 file paths and 2 paths used by both kinds of calls, with overlapping prefixes, optionally pre-populated; each program's schedule tree (decision at every lock acquisition of MemoryFS and every call boundary) is enumerated depth-first with iterative preemption bounding up to the tier's cap (exhaustive when it fits), then random schedules; additionally the systematic family of all 2-thread (1 call || 2 calls) programs over 13 calls around one hot path that changes type (x 5 initial states: absent, file, directory, file of 100 000 bytes, directory in a filesystem holding 45 further files = 10985 programs; all in thorough, 2500 sampled in quick); one random program in eight starts from 100 000-byte files, one in six from a filesystem with 45 further files; oracle: (per-call results, final tree) of every explored schedule must be among the results of the sequential executions (all program-order-respecting interleavings of whole calls on the reference model, cross-checked against a single-threaded run of the real MemoryFS), final tree well-formed, no panic, every step reaches its next yield point within 10 s; non-trivial = program in which two threads with a mutator each touch a common path or a parent/child pair, explored with >=1 preemption; evaluations = scheduled executions; PLUS truly parallel threads (three listing a 40000-entry directory, one creating and removing entries) while open_file + metadata run 2000 (20000) times: the access time must have been refreshed by every call (contention-dependent behaviour is invisible to a cooperative scheduler)";
+const RULE: &str = "programs of 2..3 threads x 1..3 calls from {create_dir, write session (create_file+write_all+drop), append session, remove_file, remove_dir, exists, metadata, read_dir, read session} over a universe of 4 directory paths, 4 file paths and 2 paths used by both kinds of calls, with overlapping prefixes, optionally pre-populated; each program's schedule tree (decision at every lock acquisition of MemoryFS and every call boundary) is enumerated depth-first with iterative preemption bounding up to the tier's cap (exhaustive when it fits), then random schedules; additionally the systematic family of all 2-thread (1 call || 2 calls) programs over 13 calls around one hot path that changes type (x 5 initial states: absent, file, directory, file of 100 000 bytes, directory in a filesystem holding 45 further files = 10985 programs; all in thorough, 2500 sampled in quick) and the first-use family (512 programs of the same shape over 8 calls on a filesystem that was never called before the threads start; complete in both tiers); one random program in eight starts from 100 000-byte files, one in six from a filesystem with 45 further files; oracle: (per-call results, final tree) of every explored schedule must be among the results of the sequential executions (all program-order-respecting interleavings of whole calls on the reference model, cross-checked against a single-threaded run of the real MemoryFS), final tree well-formed, no panic, every step reaches its next yield point within 10 s; non-trivial = program in which two threads with a mutator each touch a common path or a parent/child pair, explored with >=1 preemption; evaluations = scheduled executions; PLUS truly parallel threads (three listing a 40000-entry directory, one creating and removing entries) while open_file + metadata run 2000 (20000) times: the access time must have been refreshed by every call (contention-dependent behaviour is invisible to a cooperative scheduler)";
 
 /// Truly parallel threads (no scheduler): while two threads list a big directory and one creates
 /// and removes entries, every `open_file` must leave an access time that is not older than the
@@ -548,7 +572,7 @@ pub fn run(ctx: &RunCtx) -> i32 {
     if failure.is_none() {
         let fam = family_programs();
         let total = fam.len();
-        let chosen: Vec<Program> = match ctx.tier {
+        let mut chosen: Vec<Program> = match ctx.tier {
             Tier::Thorough => fam,
             Tier::Quick => {
                 let mut s = ctx.seed;
@@ -560,6 +584,8 @@ pub fn run(ctx: &RunCtx) -> i32 {
                 v
             }
         };
+        // the first-use family completely in both tiers
+        chosen.extend(first_use_programs());
         let shards = ctx.shards.max(1);
         let results: Vec<(Stats, Option<Failure>)> = std::thread::scope(|scope| {
             let mut hs = vec![];
